@@ -155,6 +155,69 @@ def run(check, prog):
     shared_objects_aliased(check, prog)
     scalars_never_aliased(check, prog)
     writer_drops_only_unfindable_defaults(check, prog)
+    scalar_kinds_and_order(check, prog)
+
+
+def scalar_kinds_and_order(check, prog):
+    """R10: what the text writer does with values that are not HoloPy objects.
+    (a) every kind of NumPy scalar has a representer of the library's own -- the
+    abstract kinds np.floating, np.integer, np.bool_, np.complexfloating (or a
+    common base): a scalar without one goes through PyYAML's generic object
+    representer (`!!python/object/apply:numpy...scalar`), which the loaders refuse,
+    so Sphere(r=np.float32(.5)) saves and cannot be loaded; (b) a Python complex is
+    written like np.complex128 -- the reader returns Python complex, so otherwise
+    the text of a reloaded object differs from the text it was loaded from; (c)
+    dictionaries are written in the order they have (`sort_keys=False`): a model
+    numbers its parameters in that order, so a scatterer with a per-channel
+    dictionary of priors, reloaded with sorted keys, builds a model whose parameter
+    vector means something else."""
+    import ast
+    m = prog.module('holopy.core.io.serialize')
+    loc = '%s:1' % m.relpath
+    reg = {}          # registered type expression -> (kind, function name)
+    for n in ast.walk(m.tree):
+        if isinstance(n, ast.Call) and isinstance(n.func, ast.Attribute) and \
+                n.func.attr in ('add_representer', 'add_multi_representer') and \
+                len(n.args) >= 2:
+            reg[ast.unparse(n.args[0])] = (n.func.attr, ast.unparse(n.args[1]))
+    multi = {k.rpartition('.')[2] for k, v in reg.items() if v[0] == 'add_multi_representer'}
+    COVER = {'floating': ('floating', 'inexact', 'number', 'generic'),
+             'integer': ('integer', 'number', 'generic'),
+             'bool_': ('bool_', 'bool', 'generic'),
+             'complexfloating': ('complexfloating', 'inexact', 'number', 'generic')}
+    for kind, by in COVER.items():
+        check.require(any(b in multi for b in by), 'R10-numpy-scalar-kinds',
+                      'serialize representers: np.' + kind,
+                      'every NumPy scalar of this kind has a representer', loc,
+                      fail_detail='representers are registered for %s only: any other '
+                      'np.%s is written as python/object/apply and refused on load'
+                      % (sorted(k for k in reg if k.startswith('np.')), kind))
+    py = reg.get('complex')
+    npc = reg.get('np.complex128') or reg.get('np.complexfloating')
+    check.require(py is not None and npc is not None and py[1] == npc[1],
+                  'R10-complex-one-form', 'serialize representers: complex',
+                  'Python complex and NumPy complex are written by the same '
+                  'representer', loc,
+                  fail_detail='complex -> %s, np.complex128 -> %s: n = np.complex128('
+                  '1.5+0.1j) is written as !complex, reloads as a Python complex and '
+                  'is written as !!python/complex the second time' % (py, npc))
+    q = 'holopy.core.io.serialize.save'
+    fd = prog.func(q)
+    dumps = [n for n in ast.walk(fd) if isinstance(n, ast.Call) and
+             ast.unparse(n.func) in ('yaml.dump', 'yaml.safe_dump', 'dump')]
+    ok = bool(dumps) and all(any(k.arg == 'sort_keys' and isinstance(k.value, ast.Constant)
+                                 and k.value.value is False for k in d.keywords)
+                             for d in dumps)
+    check.require(ok, 'R10-dictionary-order-kept', 'serialize.save',
+                  'the text writer keeps the order of dictionaries (sort_keys=False)',
+                  prog.loc(q, fd),
+                  fail_detail='yaml.dump sorts mapping keys by default: Sphere(n={\'red\': '
+                  'p1, \'green\': p2}) reloads as {green, red}, and AlphaModel(reloaded) '
+                  'numbers its parameters n.green, n.red where the original has n.red, '
+                  'n.green')
+    check.need('yaml.dump calls in serialize.save', len(dumps), 1,
+               'R10-dictionary-order-kept', 'serialize.save', 'save writes with yaml.dump',
+               prog.loc(q, fd))
 
 
 def writer_drops_only_unfindable_defaults(check, prog):
